@@ -18,7 +18,15 @@ def setup():
         sh('git checkout -q --detach $(git -C /repo rev-parse HEAD) && git checkout -- . && git clean -fdq -e target')
 
 def place_demo(d, name):
+    if os.path.exists(os.path.join(d, 'demo.sh')):
+        # a shell demonstration that drives the CLI binary (argument 1 = the binary)
+        return f'cargo build --offline -j 8 --bin risinglight && bash {d}/demo.sh {WT}/target/debug/risinglight', lambda: None
     demo = open(os.path.join(d, 'demo.rs')).read()
+    m = re.search(r'append to (src/\S+?\.rs)', demo)
+    if name.startswith('C06') and m and name not in ('C06-1', 'C06-2', 'C06-3', 'C06-4', 'C06-5', 'C06-6'):
+        target, filt = m.group(1), re.search(r'^mod (\w+)', demo, flags=re.M).group(1)
+        open(os.path.join(WT, target), 'a').write('\n' + demo)
+        return f'cargo test --offline -j 8 --lib {filt}', lambda: sh(f'git checkout -- {target}')
     if name.startswith('C06'):
         # the C06 demos are #[cfg(test)] modules appended to a source file named in their demo.md
         target, filt = {'C06-1': ('src/storage/secondary/block.rs', 'c06_demo_1'), 'C06-2': ('src/storage/secondary/block.rs', 'c06_demo_2'),
@@ -31,7 +39,8 @@ def place_demo(d, name):
         return f'cargo test --offline -j 8 --lib {filt}', lambda: sh(f'git checkout -- {target}')
     t = 'seeded_' + name.replace('-', '_').lower()
     open(os.path.join(WT, 'tests', t + '.rs'), 'w').write(demo)
-    return f'cargo test --offline -j 8 --test {t}', lambda: os.remove(os.path.join(WT, 'tests', t + '.rs'))
+    feat = ' --features verif_hooks' if 'verif_' in demo else ''
+    return f'cargo test --offline -j 8{feat} --test {t}', lambda: os.remove(os.path.join(WT, 'tests', t + '.rs'))
 
 def summarize(r):
     m = re.findall(r'test result: (\w+)\. (\d+) passed; (\d+) failed', r.stdout + r.stderr)
